@@ -32,6 +32,7 @@ structure Match where
   root : TSRange
   depth : Nat
   hasPar : Bool
+  hasRoot : Bool
   par : TSRange
   caps : List Cap
   deriving DecidableEq, Repr, Inhabited
